@@ -459,6 +459,30 @@ def TxBlock.wireBtsd (b : TxBlock) : Bytes :=
   | some d => d
   | none => b.attached.getD []
 
+/-! ## A whole BIB at the source (`CoseContext.apply_bib`, one COSE_Mac0 per operation) -/
+
+/-- Results of `apply_bib` for the operations' target block numbers *in policy order*: result `i` is
+    the MAC over target `i`. `none` = a target block is missing or the AAD cannot be built. -/
+def applyBibResults (b : Bundle) (sb0 : SecBlock) (prot kid : Bytes) (k : Key) :
+    List Nat → Option (List (List (Nat × Msg)))
+  | [] => some []
+  | t :: ts =>
+    match findBlock b.blocks t with
+    | none => none
+    | some tgt =>
+      match applyMac0 P crcFn (ctxFor b.primary b.blocks sb0 tgt) prot kid k, applyBibResults b sb0 prot kid k ts with
+      | some m, some rs => some ([(17, m)] :: rs)
+      | _, _ => none
+
+/-- The BIB `apply_bib` adds: the target list is the operations' block numbers in the order the
+    policy produced them, the results in the same order. -/
+def applyBib (b : Bundle) (blk : Canonical) (ssrc : Eid) (scope : List (Int × Nat)) (prot kid : Bytes) (k : Key)
+    (targets : List Nat) : Option SecBlock :=
+  let sb0 : SecBlock := ⟨blk, ssrc, targets, [5], scope, [], []⟩
+  match applyBibResults P crcFn b sb0 prot kid k targets with
+  | none => none
+  | some rs => some { sb0 with results := rs }
+
 /-! ## A whole BCB (`CoseContext.verify_bcb`) -/
 
 /-- the target block object is shared with the container: writing its BTSD changes the bundle -/
